@@ -251,7 +251,8 @@ def _cx(run, ci):
                      'populations in both sums' % val.key()[:300].replace(q1[0], 'q1').replace(qi[0], 'qi').replace(kk[0], 'k'))
     # beam population
     fn = _m(ci, '_beam_population')
-    _charged_sum(run, ci, fn, 'population_data', 'coeff', mean=True)
+    from ._charged import charged_sum
+    charged_sum(run, 'C05-R1', ci, fn, True, 'ms_to_evamu')
     _fresh_per_iteration(run, ci, _m(ci, '_populate_cache'))
 
 
@@ -359,7 +360,8 @@ def _be(run, ci):
                          'beam emission rate is evaluated with the arguments %s; documented: the plasma-space point and the beam velocity' % bad)
         else:
             run.undecided('C05-R1', 'beam emission rate arguments', 'no call of _beam_emission_rate on an emitting path')
-    _charged_sum(run, ci, _m(ci, '_beam_emission_rate'), 'self._rates_list', 'rate_func', mean=False)
+    from ._charged import charged_sum
+    charged_sum(run, 'C05-R1', ci, _m(ci, '_beam_emission_rate'), False, 'ms_to_evamu')
 
 
 def _plasma(run, ci):
